@@ -1,2 +1,3 @@
 SPECIFICATION TSpec
+CONSTRAINT Verdict
 CHECK_DEADLOCK FALSE
